@@ -16,6 +16,22 @@ pub fn set_seed(seed: Option<u64>) {
     CALLS.with(|c| c.set(0));
 }
 
+/// The process id of the simulated process (one per entropy seed), None outside a simulated process.
+pub fn sim_pid() -> Option<u32> {
+    match SEED.try_with(|s| s.get()) {
+        Ok(Some(s)) => Some(2 + (crate::rng::derive(s, "pid", 0) % 4_000_000) as u32),
+        _ => None,
+    }
+}
+
+/// Wall-clock time (seconds since the epoch) at which the simulated process runs.
+pub fn sim_realtime_secs() -> Option<i64> {
+    match SEED.try_with(|s| s.get()) {
+        Ok(Some(s)) => Some(1_700_000_000 + (crate::rng::derive(s, "realtime", 0) % 100_000_000) as i64),
+        _ => None,
+    }
+}
+
 pub fn calls() -> u64 {
     CALLS.with(|c| c.get())
 }
